@@ -148,6 +148,26 @@ def reducer_rms(y):
     return float(np.sqrt(np.mean(np.square(y))))
 reducer_rms.tag = 'red:rms'
 REDUCERS = {'sum': reducer_sum, 'max': reducer_max, 'sumsq': reducer_sumsq, 'rms': reducer_rms}
+# reducers given in the default two-argument form (SetReducer(f), arraylike=False): folded over the components
+def _max2(a, b): return a if a >= b else b
+def _mul2(a, b): return a * b
+def _first2(a, b): return a
+REDUCERS2 = {'max2': _max2, 'mul2': _mul2, 'first2': _first2}
+def _folded(f):
+    def red(y):
+        import functools
+        return float(functools.reduce(f, [float(v) for v in np.asarray(y, dtype=float).ravel()]))
+    return red
+for _n, _f in REDUCERS2.items():
+    REDUCERS[_n] = _folded(_f)
+    REDUCERS[_n].tag = 'red:' + _n
+
+
+def set_reducer(s, name):
+    if name in REDUCERS2:
+        s.SetReducer(REDUCERS2[name])                   # documented default: a function of two arguments
+    else:
+        s.SetReducer(REDUCERS[name] if name else None, arraylike=True)
 
 
 # ------------------------------------------------------------------ boxes
@@ -367,7 +387,7 @@ class Lab(object):
         elif call == 'penalty' and cfg.get('penalty') is not None:
             s.SetPenalty(self.pen(cfg['penalty']))
         elif call == 'reducer' and cfg.get('reducer') is not None:
-            s.SetReducer(REDUCERS[cfg['reducer']], arraylike=True)
+            set_reducer(s, cfg['reducer'])
         elif call == 'term' and cfg.get('term') not in (None, 'default'):
             s.SetTermination(make_term(cfg['term']))
         elif call == 'limits' and cfg.get('limits') is not None:
@@ -431,7 +451,7 @@ class Lab(object):
             elif name == 'SetPenalty':
                 s.SetPenalty(self.pen(op[1]))
             elif name == 'SetReducer':
-                s.SetReducer(REDUCERS[op[1]] if op[1] else None, arraylike=True)
+                set_reducer(s, op[1])
             elif name == 'SetEvaluationLimits':
                 g, e, new = op[1], op[2], (op[3] if len(op) > 3 else False)
                 s.SetEvaluationLimits(g, e, new=new)
